@@ -364,6 +364,17 @@ pub fn parts<'a>(cli: &'a Cli) -> Option<(Vec<Part<'a>>, &'static str, Vec<&'sta
             }));
             Some((parts, "part mem: the C03 cases over the in-memory connection (one client segment per read)", a))
         }
+        "C06" => {
+            parts.push(make_part("mem", "CONV/mem", cli.cases(20_000, 1_000_000), || gen::c06_strategy(mem(), false), |_| (), |_, c| {
+                let (exp, obs) = run(c);
+                c06_oracle(c, &exp, &obs)
+            }));
+            parts.push(make_part("mem-withheld-body", "CONV/mem", cli.cases(20_000, 1_000_000), || gen::c06_withhold_strategy(mem()), |_| (), |_, c| {
+                let (exp, obs) = run(c);
+                c06_oracle(c, &exp, &obs)
+            }));
+            Some((parts, "part mem: the C06 cases (without panicking handlers) over the in-memory connection; part mem-withheld-body: a request with a streamed body (Content-Length > 1024, chunked, or Expect: 100-continue) that the application drops / answers without reading, while the client withholds the rest of the body until the answer has arrived: the answer must not wait for the body (exact stall detection), followers are served afterwards", a))
+        }
         "C09" => {
             parts.push(make_part("mem", "CONV/mem", cli.cases(20_000, 1_000_000), move || gen::c09_strategy(max_len, mem()), |_| (), |_, c| {
                 let (exp, obs) = run(c);
